@@ -152,6 +152,15 @@ def handle (req : Json) : Json :=
     | "infer" => infer req
     | "rt" => rt req
     | "looprun" => looprun req
+    | "emptyscan" => do
+      let v ← valOfJson (← req.getObjVal? "val")
+      let t ← tyOfJson (← req.getObjVal? "ty")
+      pure (Json.mkObj [("ok", match t with | some t => emptyScanOk v t | none => true)])
+    | "nontensor" => do
+      let op ← req.getObjValAs? String "op"
+      pure (Json.mkObj [("outcome", match nonTensorOutcome op with
+        | some .typeErr => "TypeError" | some .inferenceErr => "InferenceError"
+        | some .passThrough => "passThrough" | none => "?")])
     | "loop" => do
       let A ← tys req "A"; let R ← tys req "R"; let S ← tys req "S"
       let pinned := (req.getObjValAs? Bool "pinned").toOption.getD false
